@@ -133,11 +133,13 @@ def generic_attr_edits(sf, lo, hi, ed, log, where):
         i += 1
 
 
-def closure_underscore_edits(sf, lo, hi, ed, log, where):
+def closure_underscore_edits(sf, lo, hi, ed, log, where, protected=()):
     """R1 (subset, automatic): closure parameter `_` gets a name."""
     toks = sf.toks
     n = 0
     for i in range(lo, hi - 2):
+        if any(a <= i < b for a, b in protected):
+            continue
         if toks[i].text == '|' and toks[i + 1].text == '_' and toks[i + 2].text == '|':
             prev = toks[i - 1].text if i > lo else ''
             if prev in ('(', ',', '=', '{', ';', 'move', 'return') or prev == '=>':
@@ -232,20 +234,24 @@ def weave_fn(sf, it, spec, log, where, canary=False):
         return ed.render()
     ed = Edits(sf, toks[it.attr_lo].start, toks[it.hi - 1].end)
     generic_attr_edits(sf, it.attr_lo, it.hi, ed, log, where)
-    closure_underscore_edits(sf, it.body_lo, it.body_hi, ed, log, where)
     body_open = toks[it.body_lo]
-    if spec is None:
-        return ed.render()
-    # declared rewrites (R1/R2/R3/R7...) : token-sequence match, exactly once
-    for rule, before, after in spec.rewrites:
+    protected = []
+    # declared rewrites (R1/R2/R3/R7...) : token-sequence match, exactly once (or every occurrence with 'all')
+    for rw in (spec.rewrites if spec is not None else []):
+        rule, before, after = rw[0], rw[1], rw[2]
+        every = len(rw) > 3 and rw[3] == 'all'
         pat = [t.text for t in lex(before)]
         hits = _find_seq(toks, it.kw, it.hi, pat)
-        if len(hits) != 1:
+        if (len(hits) != 1 and not every) or not hits:
             raise Undecided('%s: rewrite %s anchor %r matched %d times' % (where, rule, before, len(hits)))
-        h = hits[0]
-        ed.add(toks[h].start, toks[h + len(pat) - 1].end, after)
+        for h in hits:
+            ed.add(toks[h].start, toks[h + len(pat) - 1].end, after)
+            protected.append((h, h + len(pat)))
         if not canary:
-            log.rw(rule, where, before, after)
+            log.rw(rule, where, before + (' (x%d)' % len(hits) if every else ''), after)
+    closure_underscore_edits(sf, it.body_lo, it.body_hi, ed, log, where, protected)
+    if spec is None:
+        return ed.render()
     # R10: alpha-renaming of a parameter (Verus rejects a contract on `fn f(.., f: T)`)
     for old_name, new_name in (spec.params or {}).items():
         cnt = 0
@@ -266,6 +272,8 @@ def weave_fn(sf, it, spec, log, where, canary=False):
     pre = ''
     if spec.mode == 'assumed':
         pre += '#[verifier::external_body] '
+    if spec.mode == 'external':
+        pre += '#[verifier::external] '
     for a in spec.attrs:
         pre += a + ' '
     if pre:
